@@ -11,7 +11,7 @@ LEVEL = "exploration"
 RULE = (
     "A case = a population of 2-7 instances drawn from {plain class, value-equal + hashable, value-equal without "
     "__hash__, expression-builder equality (== returns a truthy node), equality that raises on foreign operands, list subclass (receiver named 'me'), dict subclass (receiver named 'this'), subclass inheriting the "
-    "method, subclass overriding it, class with a functools.wraps-decorated method (plain, over an already tooled function, applied while a probe was active on the function), class with a property} with small "
+    "method, subclass overriding it, subclass whose method uses class-private (mangled) names, class with a functools.wraps-decorated method (plain, over an already tooled function, applied while a probe was active on the function), class with a property} with small "
     "keys so that equal-but-distinct receivers occur, 1-3 selectors (often on receivers sharing one method; some activated part-way through the history, some deactivated - most recent first - while calls go on) from {Cls.meth > v, "
     "obj.meth > v, box.holder.obj.meth > v (dotted path), objI.relay > objJ.meth > v (two bound methods on one path, both receivers usually named self), sweep > obj.meth > v (the receiver condition sits in an inner call of a call path; sweep calls the method on every instance), decorated method through class or object, property through "
     "the class}, and a random sequence of 4-14 calls over the population plus calls of a module-level function that "
@@ -77,6 +77,15 @@ class EqSloppy(Plain):
         return self.k == other.k
     def __hash__(self):
         return hash(self.k)
+
+class Priv(Plain):
+    """the method uses class-private names (mangled to _Priv__name inside the class body)"""
+    __bias = 5
+    def __twice(self, x):
+        return 2 * x
+    def meth(self, x):
+        v = self.__twice(x) + self.__bias + self.k
+        return v
 
 class Over(Plain):
     def meth(self, x):
@@ -149,8 +158,8 @@ def sweep(objs, x):
         out.append(o.pval if hasattr(type(o), "pval") else o.meth(x))
     return out
 '''
-PLAIN_FAMILY = ("Plain", "Eq", "EqNoHash", "Sub", "Over", "EqExpr", "EqSloppy")
-KINDS = ["Plain", "Eq", "EqNoHash", "Sub", "Over", "L", "D", "Deco", "Prop", "EqExpr", "EqSloppy", "DecoTooled", "DecoLate"]
+PLAIN_FAMILY = ("Plain", "Eq", "EqNoHash", "Sub", "Over", "EqExpr", "EqSloppy", "Priv")
+KINDS = ["Plain", "Eq", "EqNoHash", "Sub", "Over", "L", "D", "Deco", "Prop", "EqExpr", "EqSloppy", "DecoTooled", "DecoLate", "Priv"]
 RECV = {"L": "me", "D": "this"}
 
 
@@ -185,6 +194,8 @@ def func_of(ns, kind):
 
 
 def expected_value(kind, k, x):
+    if kind == "Priv":
+        return 2 * x + 5 + k
     if kind == "Over":
         return x * 1000 + k
     if kind == "L":
